@@ -223,6 +223,8 @@ pub fn run(report: &Report, budget: &Budget) {
     let thorough = report.thorough();
     // Crash states of the standard scenarios (between-operation and empty-leftover states)
     let (cdone, ctotal) = crate::c14::run_crash_rider(report, budget, "C13");
+    // Archives written while storage operations fail (single faults and outages)
+    let (fdone, ftotal) = crate::c04::run_format_rider(report, budget);
     // Every state of the history graph
     let depth = if thorough { 3 } else { 2 };
     let hb = Budget::new(if thorough { 500 } else { 15 });
@@ -232,11 +234,11 @@ pub fn run(report: &Report, budget: &Budget) {
     let f = |c: &crate::c01::Case, t: &Tree, scratch: &crate::util::Scratch| judge_case(t, &c.opts, &c.tag, scratch);
     let (adone, atotal) = crate::c01::for_each_case(report, budget, "C13", &f);
     report.set("input_sweep_archives", json!(adone));
-    report.set("states", json!(st.states + adone + cdone));
-    report.set("transitions", json!(st.transitions + adone + cdone));
-    report.set("traces_validated_against_impl", json!(st.executions + adone + cdone));
-    report.set("exhaustive", json!(adone == atotal && cdone == ctotal && st.depth_completed == depth));
-    report.set("explanation", json!("every archive state reached (history graph, crash states of the standard scenarios, every input of the C01 sweeps under all 24 option points) is read by the independent format-0.6 reader and judged against doc/format.md"));
+    report.set("states", json!(st.states + adone + cdone + fdone));
+    report.set("transitions", json!(st.transitions + adone + cdone + fdone));
+    report.set("traces_validated_against_impl", json!(st.executions + adone + cdone + fdone));
+    report.set("exhaustive", json!(adone == atotal && cdone == ctotal && fdone == ftotal && st.depth_completed == depth));
+    report.set("explanation", json!("every archive state reached (history graph, crash states of the standard scenarios, archives written under every single storage fault and outage, every input of the C01 sweeps under all 24 option points) is read by the independent format-0.6 reader and judged against doc/format.md"));
     report.assume("zero-length files are the documented leftover of a killed write and are not judged");
     report.assume("file sizes are compared with the tree model of the band's source");
 }
